@@ -14,6 +14,7 @@ T_Fmt == /\ IsEvent("Fmt") /\ ~E.panic
          /\ E.backok /\ E.backds = E.ds /\ (E.ds # <<>> => E.backneg = E.neg)    \* parse(format(x)) = x
          /\ E.cmp                                                     \* ... an equal decimal (Cmp)
 T_Parse == /\ IsEvent("Parse") /\ ~E.panic
+           /\ E.kept                            \* an input that is rejected does not change the value the decimal holds
            /\ ParseOK(E.text, E.p, E.s, E.ok, E.neg, E.ds)
 \* construction with a (precision, scale) pair
 T_New == /\ IsEvent("New")
